@@ -100,6 +100,38 @@ def setter_value(rng, schema, field, u, have_rate_and_count=True):
     raise ValueError(field)
 
 
+def related_value(rng, field, prev):
+    """A value for `field` that is a close relative of the value `prev` set earlier on the same track: a double a hair away from it,
+    a string that differs from it only in letter case.  Returns None when no such relative exists.  (Re-tagging a file fixes the
+    capitalisation of a title or a file name, re-analysis moves a tempo by a thousandth: an 'unchanged' test that is too lenient
+    drops exactly these.)"""
+    if prev is None:
+        return None
+    if field in ("bpm", "average_loudness", "main_cue") and isinstance(prev, str) and len(prev) == 16:
+        x = GS.undbits(prev)
+        if x != x or x in (float("inf"), float("-inf")) or x == 0.0:
+            return None
+        import math
+        y = rng.choice([math.nextafter(x, math.inf), x * (1 + 1e-12), x * (1 + 1e-9), x + 0.0001, x + 0.004, x - 0.0004, x * (1 - 3e-6)])
+        if field == "average_loudness" and not (0.0 < y <= 1.0):
+            return None
+        return GS.dbits(y) if y != x else None
+    if field in ("title", "artist", "album", "genre", "comment", "publisher", "composer", "relative_path") and isinstance(prev, str):
+        try:
+            b = bytes.fromhex(prev)
+            t = b.decode("utf-8")
+        except (ValueError, UnicodeDecodeError):
+            return None
+        if field == "relative_path":
+            # only the file name changes its case (the folders stay), as after a rename on a case-insensitive file system
+            head, sep, tail = t.rpartition("/")
+            t2 = head + sep + tail.swapcase()
+        else:
+            t2 = t.swapcase()
+        return t2.encode("utf-8").hex() if t2 != t else None
+    return None
+
+
 def slot_value(rng, schema, which, u):
     v2 = is_v2(schema)
     minlabel = 0 if v2 else 1
@@ -128,6 +160,13 @@ def gen_setter_history(rng, schema, n_tracks=2, n_ops=30, big=False, first_id=No
         ops.append({"op": "create_track", "as": "t%d" % t, "snap": s})
         metas.append({"kind": "create", "t": "t%d" % t})
     last_field = None
+    # the value each track was created with / last given, per field (for values that are close relatives of it)
+    last_val = {}
+    for t in range(n_tracks):
+        sn = ops[len(ops) - n_tracks + t]["snap"]
+        for f in ("bpm", "average_loudness", "main_cue", "title", "artist", "album", "genre", "comment", "publisher", "composer", "relative_path"):
+            if sn.get(f) is not None:
+                last_val[("t%d" % t, f)] = sn[f]
     rate_count_ok = {("t%d" % t): True for t in range(n_tracks)}
     if no_perf_row and not is_v2(schema):
         # the first track as Engine leaves a track it has imported but not analysed: no performance-data row at all
@@ -175,6 +214,12 @@ def gen_setter_history(rng, schema, n_tracks=2, n_ops=30, big=False, first_id=No
                           "excusable": bool(no_perf_row and not is_v2(schema) and th == "t0")})
         else:
             val, exc = setter_value(rng, schema, field, u)
+            if rng.random() < 0.3:
+                rel = related_value(rng, field, last_val.get((th, field)))
+                if rel is not None:
+                    val, exc = rel, False
+            if val is not None and not exc:
+                last_val[(th, field)] = val
             if field in ("sample_rate", "sample_count") and (val is None or exc):
                 rate_count_ok[th] = False
             elif field in ("sample_rate", "sample_count"):
@@ -213,6 +258,7 @@ def gen_library_history(rng, schema, n_ops, rich_tracks=2, hostile=False):
         push(FO.gen_membership_op(rng, st))
         guard += 1
     waveform_ok = {h: True for h in st.tracks}
+    last_val = {}
     for _ in range(n_ops):
         r = rng.random()
         lt = st.live_tracks()
@@ -229,6 +275,12 @@ def gen_library_history(rng, schema, n_ops, rich_tracks=2, hostile=False):
                       {"kind": "set_at", "t": th, "field": which, "index": idx, "value": val}))
             else:
                 val, exc = setter_value(rng, schema, field, u)
+                if rng.random() < 0.3:
+                    rel = related_value(rng, field, last_val.get((th, field)))
+                    if rel is not None:
+                        val, exc = rel, False
+                if val is not None and not exc:
+                    last_val[(th, field)] = val
                 if field in ("sample_rate", "sample_count"):
                     waveform_ok[th] = False if (val is None or exc) else waveform_ok.get(th, False)
                 push(({"op": "set", "t": th, "field": field, "value": val},
